@@ -44,3 +44,13 @@ M("c20-pop-keeps", "C20", "core/datagroup.py", "return self._container.pop(key)"
 M("c20-clear-keeps-meta", "C20", "core/dataset.py", "        self.groups.clear()\n        self.meta.clear()", "        self.groups.clear()", "Dataset.clear keeps meta")
 M("c20-update-order", "C20", "core/datagroup.py", "        for key, value in d.items():\n            self[key] = value\n\n    def layer", "        for key, value in reversed(list(d.items())):\n            self[key] = value\n\n    def layer", "update inserts in reverse order")
 M("c20-get-default", "C20", "core/dataset.py", "return self.groups.get(key, default)", "return self.groups.get(key, None) or default", "empty group treated as missing by Dataset.get")
+
+# ---------------------------------------------------------------- C17
+M("c17-copy-shares-buffer", "C17", "core/array.py", "values=self._array.copy(), unit=units(self.unit), name=str(self.name)", "values=self._array[...], unit=units(self.unit), name=str(self.name)", "Array.copy shares the buffer")
+M("c17-getitem-copies-slices", "C17", "core/array.py", "            values=self._array[slice_], unit=self.unit, name=self.name\n", "            values=(self._array[slice_].copy() if isinstance(slice_, slice) and slice_.step == 2 else self._array[slice_]), unit=self.unit, name=self.name\n", "stride-2 slices are copies, not views")
+M("c17-vector-copy-shallow", "C17", "core/vector.py", "**{c: xyz.copy() for c, xyz in self._xyz.items()}, name=str(self._name)", "**{c: xyz for c, xyz in self._xyz.items()}, name=str(self._name)", "Vector.copy shares component buffers")
+M("c17-datagroup-copy-deep", "C17", "core/datagroup.py", "return self.__class__(**{key: array for key, array in self.items()})", "return self.__class__(**{key: array.copy() for key, array in self.items()})", "Datagroup.copy deep")
+M("c17-inplace-new-object", "C17", "core/array.py", "            kwargs[\"out\"][0].unit = unit\n            return kwargs[\"out\"][0]", "            kwargs[\"out\"][0].unit = unit\n            return self.__class__(values=kwargs[\"out\"][0]._array, unit=unit)", "in-place op returns a new Array wrapping the same buffer")
+M("c17-isub-no-conversion", "C17", "core/array.py", "        return _binary_op(np.subtract, self, other, out=self)", "        return _binary_op(np.subtract, self, other, strict=False, out=self) if getattr(other, 'ndim', 0) else _binary_op(np.subtract, self, other, out=self)", "-= with an incompatible array operand silently subtracts raw numbers")
+M("c17-itruediv-float32", "C17", "core/array.py", "        if np.issubdtype(result.dtype, np.number):", "        if np.issubdtype(result.dtype, np.number) and not (func.__name__ in ('divide', 'true_divide') and 'out' in kwargs and result.dtype == np.float32):", "unit dropped only for float32 in-place division")
+M("c17-dataset-copy-deep", "C17", "core/dataset.py", "        out = self.__class__(**dict(self.items()))", "        out = self.__class__(**{k: g.copy() for k, g in self.items()})", "Dataset.copy copies its groups")
